@@ -101,7 +101,7 @@ Fixpoint type_of_id (eid : Z) (bs : list block) : option string :=
   | (t, rows) :: r => if zmem eid (map fst rows) then Some t else type_of_id eid r
   end.
 
-Definition implicit_weights (mu : Z -> option T) (bs : list block) : option (list T) :=
+Definition implicit_weights_scatter (mu : Z -> option T) (bs : list block) : option (list T) :=
   match items bs with
   | [(_, b)] => omap (fun e : elem => mu (fst e)) b
   | it =>
@@ -113,10 +113,20 @@ Definition implicit_weights (mu : Z -> option T) (bs : list block) : option (lis
       end
   end.
 
+(* `by_id` = which assignment the 'mix' branch contains (detected in the source
+   on every run by harness/c14.py, fail-closed):
+     false: metrics[self.elements.types == k] = partial_metrics      (unchanged tree)
+     true : metrics[self.elements.id2index.loc[e.ids]...] = partial_metrics
+            (proposed fix: every element receives its own metric) *)
+Definition implicit_weights (by_id : bool) (mu : Z -> option T) (bs : list block)
+  : option (list T) :=
+  if by_id then omap (fun e : elem => mu (fst e)) (elems_of bs)
+  else implicit_weights_scatter mu bs.
+
 Inductive wmode :=
 | WFalse                               (* weight=False *)
 | WExplicit (wt : list T)              (* weight=array, one per position of elements.ids *)
-| WImplicit (mu : Z -> option T).      (* weight=None: calculate_element_metrics *)
+| WImplicit (by_id : bool) (mu : Z -> option T).   (* weight=None: calculate_element_metrics *)
 
 Definition e2n (m : mesh) (effective_mode : bool) (order1_only : bool) (wm : wmode)
            (v : field) (w : nat) : option field :=
@@ -130,8 +140,8 @@ Definition e2n (m : mesh) (effective_mode : bool) (order1_only : bool) (wm : wmo
           match wm with
           | WFalse => Some (e2n_mean_of Im (repeat (o1 O) (bnc Im)) v w)
           | WExplicit wt => if length wt =? bnc Im then Some (e2n_mean_of Im wt v w) else None
-          | WImplicit mu =>
-              match implicit_weights mu (m_blocks m) with
+          | WImplicit by_id mu =>
+              match implicit_weights by_id mu (m_blocks m) with
               | None => None
               | Some wt => Some (e2n_mean_of Im wt v w)
               end
